@@ -160,7 +160,18 @@ def _protocol(ctx, g, x, root, fl, view):
                 for a in incs:
                     s2 = index_sources(x, g.call_args(a.nid)[0])
                     oki = bool(s2) and {s.nid for s in s2} <= POSOBS
-                    ctx.add('P3b', 'T-FLOW', fn, oki, 'pin is taken on the slot of this attempt', flavour=fl, where=g.where(a.nid), sub=sub + '|pinslot')
+                    # ... of THIS attempt: the pinned slot is indexed by exactly the position observations that index the
+                    # slot read (a pin cell computed once before the retry loop pins the first attempt's slot for ever)
+                    same = {s.nid for s in (s2 or [])} == IDX
+                    ctx.add('P3b', 'T-FLOW', fn, oki and same, 'pin is taken on the slot of this attempt' if oki and same else
+                            'the pin is not taken on the slot this attempt reads (pinned slot indexed by %s, read slot by %s): after a retry the consumer clones from a slot it has not pinned'
+                            % (sorted(x.describe(s.nid) for s in (s2 or []))[:3], sorted(x.describe(i_) for i_ in IDX)[:3]),
+                            flavour=fl, where=g.where(a.nid), sub=sub + '|pinslot')
+                for a in decs:
+                    s3 = index_sources(x, g.call_args(a.nid)[0])
+                    same3 = {s.nid for s in (s3 or [])} == IDX
+                    ctx.add('P3b', 'T-FLOW', fn, same3, 'the pin is released on the slot of this attempt' if same3 else
+                            'the pin is released on another slot than the one this attempt pinned and read', flavour=fl, where=g.where(a.nid), sub=sub + '|unpinslot')
                 # re-check after pin: every path inc -> R passes an "equal" edge of a fresh position re-load
                 recheck_eq = set()
                 recheck_ne = set()
